@@ -891,7 +891,19 @@ func ruleCanAdd(rule string) ruleFn {
 				}
 			}
 		}
-		rmNeed := Need{Desc: "no WO replica, or the WO replica was removed", Atoms: append([]string{"+" + fCtl + "RemoveReplicaNoLock($0," + woAddr + ") -nil ==0"}, noWO.Atoms...), Edge: noWO.Edge}
+		// "removed": the atom on the call's own error, or - when the removal's error is merged with
+		// others before it is tested (the take-over written as a helper with early returns) - the
+		// success edge of that call found through the merge
+		rmEdges := []func(*ssa.BasicBlock, int) bool{}
+		if noWO.Edge != nil {
+			rmEdges = append(rmEdges, noWO.Edge)
+		}
+		for _, rc := range CallsTo(fn, fCtl+"RemoveReplicaNoLock") {
+			if cl, ok := rc.(*ssa.Call); ok && len(cl.Call.Args) >= 2 && R0.V(cl.Call.Args[1]) == woAddr {
+				rmEdges = append(rmEdges, successEdgesOfCall(fn, rc))
+			}
+		}
+		rmNeed := Need{Desc: "no WO replica, or the WO replica was removed", Atoms: append([]string{"+" + fCtl + "RemoveReplicaNoLock($0," + woAddr + ") -nil ==0"}, noWO.Atoms...), Edge: orEdges(rmEdges...)}
 		gtNeed := Need{Desc: "no WO replica, or newcomer has the greater revision", Atoms: append([]string{fCtl + "hasGreaterRevisionCount($0," + woAddr + ",$1)#0"}, noWO.Atoms...), Edge: noWO.Edge}
 		c.Guard(rule, fn, sites, "return true", nil,
 			atom("address not yet a member", "!"+fCtl+"hasReplica($0,$1)"),
